@@ -28,10 +28,11 @@ const (
 	rcSetError
 	rcVersionNotFirst
 	rcMandatoryLeftToBadEnv
+	rcMandatoryEnvSetTooLate
 	numRejectCauses
 )
 
-var rejectCauseNames = []string{"none", "missing-positional", "surplus-positional", "undeclared-option", "bad-int", "bad-bool", "injected-set-error", "version-flag-not-in-first-position", "mandatory-option-left-to-an-invalid-environment-value"}
+var rejectCauseNames = []string{"none", "missing-positional", "surplus-positional", "undeclared-option", "bad-int", "bad-bool", "injected-set-error", "version-flag-not-in-first-position", "mandatory-option-left-to-an-invalid-environment-value", "mandatory-root-option-whose-variable-is-set-only-after-its-declaration"}
 
 func hasTpl(tpl int, xs ...int) bool {
 	for _, x := range xs {
@@ -74,7 +75,16 @@ func applyReject(t *Tape, tpl int, c *CmdDecl, toks []string, cause rejectCause)
 		if !hasTpl(tpl, 0, 1, 2, 3, 5, 6, 7, 9) {
 			return nil, false
 		}
-		out = append(out, []string{"y0", "y1", "y2", "", " "}[t.Draw(5)])
+		if k := t.Draw(6); k == 5 {
+			// after the first `--` a further `--` is a positional like any other: one too many, also in last position
+			if n := len(out); hasTpl(tpl, 2, 3, 7) && n > 0 {
+				out = append(out[:n-1], "--", out[n-1], "--") // the level's positional is its last token
+			} else {
+				out = append(out, "--", "--")
+			}
+		} else {
+			out = append(out, []string{"y0", "y1", "y2", "", " "}[k])
+		}
 		return out, true
 	case rcUndeclaredOption:
 		insert([]string{"-z", "--zzz", "-z=1", "--zzz=1", "-q", "-5", "-2.5", "-1e3", "-inf", "-0"}[t.Draw(10)])
@@ -112,6 +122,12 @@ func applyReject(t *Tape, tpl int, c *CmdDecl, toks []string, cause rejectCause)
 	case rcMandatoryLeftToBadEnv:
 		// (the caller installs the invalid environment value)
 		if tpl != 8 {
+			return nil, false
+		}
+		return nil, true
+	case rcMandatoryEnvSetTooLate:
+		// (the caller sets the variable between the declarations and Run: a root option read it when it was declared)
+		if tpl != 8 || c.Tag != "r" {
 			return nil, false
 		}
 		return nil, true
@@ -243,6 +259,7 @@ type c07Case struct {
 	ExtraBroken int // help cases: another level made invalid on purpose (-1 none)
 	VersionText string
 	Env         EnvState          // the simulator-owned variables (only a level with an env-backed option looks at them)
+	EnvLate     *EnvState         // when set: installed between the declarations of the root and Run (single runs only)
 	Ambient     map[string]string // well-known variables of the host environment the library has no business reading
 }
 
@@ -250,6 +267,9 @@ func (c *c07Case) Describe() interface{} {
 	m := map[string]interface{}{"argv": c.Argv, "kind": c.Kind, "level": c.Level, "stream": c.Stream.String(), "app": c.Tree.App.Describe()}
 	if c.Kind == "rejected" {
 		m["cause"] = rejectCauseNames[c.Cause]
+	}
+	if c.EnvLate != nil {
+		m["env_set_between_the_declarations_and_run"] = c.EnvLate.Describe()
 	}
 	if c.ExtraBroken >= 0 {
 		m["level_made_invalid_on_purpose"] = c.ExtraBroken
@@ -346,6 +366,11 @@ func c07Invocation(t *Tape, tc *TreeCase, allowSetError bool) *c07Case {
 						c.Env.Set(0, bad)
 					}
 				}
+				if cause == rcMandatoryEnvSetTooLate {
+					late := c.Env
+					late.Set(0, []string{"80", "80,8080", " 1 , 2 "}[t.Draw(3)])
+					c.EnvLate = &late
+				}
 				break
 			}
 		}
@@ -368,6 +393,11 @@ type policyRun struct {
 }
 
 func runUnderPolicies(tc *TreeCase, argv []string, stream StreamPlan) [3]policyRun {
+	return runUnderPoliciesEnv(tc, argv, stream, EnvState{}, nil)
+}
+
+// runUnderPoliciesEnv: with late set, the environment is `early` while the root is declared and `late` from then on.
+func runUnderPoliciesEnv(tc *TreeCase, argv []string, stream StreamPlan, early EnvState, late *EnvState) [3]policyRun {
 	var runs [3]policyRun
 	for i, pol := range policies {
 		app := *tc.App
@@ -376,8 +406,14 @@ func runUnderPolicies(tc *TreeCase, argv []string, stream StreamPlan) [3]policyR
 		p := NewProc(i)
 		p.Stream = stream
 		var inst *Instance
+		if late != nil {
+			early.Apply()
+		}
 		RunProc(p, func() error {
 			inst = Build(&app, p)
+			if late != nil {
+				late.Apply()
+			}
 			return inst.Cli.Run(argv)
 		})
 		runs[i] = policyRun{p, inst, nil}
@@ -422,7 +458,7 @@ func (c07Prop) Exec(cc Case, st *Stats) *Violation {
 		return execSession(sc, st, c07Verdict)
 	}
 	c := cc.(*c07Case)
-	return c07Verdict(c, runUnderPolicies(c.Tree, c.Argv, c.Stream), st)
+	return c07Verdict(c, runUnderPoliciesEnv(c.Tree, c.Argv, c.Stream, c.Env, c.EnvLate), st)
 }
 
 func c07Verdict(c *c07Case, runs [3]policyRun, st *Stats) *Violation {
@@ -573,6 +609,21 @@ func c14Invocation(t *Tape, tc *TreeCase, kind string) *c07Case {
 					continue // arming a failing Set changes the declarations, which sessions share
 				}
 				if toks, ok := applyReject(t, tc.Tpl[lvl], tc.Path[lvl], tc.Tokens[lvl], cause); ok {
+					if lvl < c.Level && cause == rcSurplusPositional {
+						// help below an ancestor whose own arguments contain `--` is not claimed: another surplus token
+						plain := []string{}
+						dd := false
+						for _, tok := range toks {
+							if tok == "--" {
+								dd = true
+								continue
+							}
+							plain = append(plain, tok)
+						}
+						if dd {
+							toks = append(plain, "y0")
+						}
+					}
 					tc.Tokens[lvl] = toks
 					c.ExtraBroken = lvl
 					c.Cause = cause
@@ -581,7 +632,14 @@ func c14Invocation(t *Tape, tc *TreeCase, kind string) *c07Case {
 			}
 		}
 		toks := tc.Tokens[c.Level]
-		pos := t.Draw(len(toks) + 1)
+		before := len(toks)
+		for i, tok := range toks {
+			if tok == "--" {
+				before = i // the help token goes in front of the level's first `--`: behind it, it would be data
+				break
+			}
+		}
+		pos := t.Draw(before + 1)
 		tc.Tokens[c.Level] = append(append(append([]string{}, toks[:pos]...), c.HelpTok), toks[pos:]...)
 		if c.Level+1 < len(tc.Path) && t.Draw(5) == 0 {
 			// a second help token, of the other spelling, further down the path: the first one decides
